@@ -10,6 +10,10 @@ array decay, pointer hops as 8-byte loads).  For a random access c:  (e, t) = c_
 expr_to_c_and_types(expr_simp(e)) must be non-empty, every returned access must denote the same bytes as c, carry a type
 consistent with itself, and one of them must have the type of c (for address-valued accesses: or the type of an
 enclosing aggregate/array starting at the same address, which the expression cannot distinguish).
+Histories: the same unit is also given to ONE declaration table (CAstTypes) with ONE manager, created before any
+declaration, chunk of declarations by chunk of declarations, with layout queries in between (every root complete at
+that point, pointers to tags that are so far only pointed to); every answer, the final layout of every root and a few
+accesses through that manager must agree with the same oracles (a layout does not depend on when it is asked for).
 """
 import random
 import shutil
@@ -20,23 +24,126 @@ from vlib.runner import Check, ShardResult, Failure, derive_seed
 from vlib import cdecl
 
 BATCH = 50
-FEATURES = ("anon-member", "octal", "nested-tag-ref")
+FEATURES = ("anon-member", "octal", "nested-tag-ref", "forward-ref")
 
 
 # ----------------------------------------------------------------------------------------------
 # miasm side
 
 
-def managers(text):
+def new_manager(mode):
+    """-> (empty declaration table, manager of the mode over it)"""
     from miasm.core.ctypesmngr import CAstTypes
     from miasm.core.objc import CTypesManagerNotPacked, CTypesManagerPacked
     from miasm.arch.x86.ctype import CTypeAMD64_unk
-    out = {}
-    for mode, cls in (("np", CTypesManagerNotPacked), ("p", CTypesManagerPacked)):
-        ta = CAstTypes()
-        ta.add_c_decl(text)
-        out[mode] = cls(ta, CTypeAMD64_unk())
+    ta = CAstTypes()
+    cls = CTypesManagerNotPacked if mode == "np" else CTypesManagerPacked
+    return ta, cls(ta, CTypeAMD64_unk())
+
+
+def manager(text, mode):
+    from miasm.core.ctypesmngr import CAstTypes
+    from miasm.core.objc import CTypesManagerNotPacked, CTypesManagerPacked
+    from miasm.arch.x86.ctype import CTypeAMD64_unk
+    ta = CAstTypes()
+    ta.add_c_decl(text)
+    cls = CTypesManagerNotPacked if mode == "np" else CTypesManagerPacked
+    return cls(ta, CTypeAMD64_unk())
+
+
+def by_value_tags(node, out):
+    """tags of the aggregates laid out inside the layout tree node (pointers are not followed)"""
+    T = node["T"]
+    if T[0] == "agg" and T[2] is not None:
+        out.add((T[1], T[2]))
+    for f in node.get("fields", ()):
+        if f[0] is None:
+            continue
+        by_value_tags(f[2], out)
+    if "elem" in node:
+        by_value_tags(node["elem"], out)
     return out
+
+
+def show_history(unit, ops, upto=None):
+    out = []
+    for op in ops[:upto]:
+        if op[0] == "add":
+            out.append("add_c_decl: " + cdecl.render_items(unit, op[1], op[2]).strip().replace("\n", " "))
+        elif op[0] == "query":
+            out.append("get_objc(%s)" % cdecl.root_ctype((op[1], op[2])))
+        else:
+            out.append("get_objc(%s %s *)" % (op[1], op[2]))
+    return "\n".join(out)
+
+
+def run_history(unit, plan, mode, ops):
+    """one declaration table and one manager, created empty; the ops of cdecl.history_plan in order.
+    -> (manager, None) | (None, (bucket, detail))"""
+    from miasm.core.ctypesmngr import CTypePtr, CTypeStruct, CTypeUnion
+    from miasm.core import objc as O
+    mname = "packed" if mode == "p" else "notpacked"
+    trees = plan[mode]
+    ta, mngr = new_manager(mode)
+    asked_incomplete = set()     # tags that were incomplete (only pointed to) while a layout was asked for
+    pending = set()
+    defined = set()
+    all_tags = set(t for it in unit["items"] for t in cdecl.item_defs(it)[1])
+    for n, op in enumerate(ops):
+        if op[0] == "add":
+            text = cdecl.render_items(unit, op[1], op[2])
+            try:
+                ta.add_c_decl(text)
+            except Exception as ex:
+                return None, ("history:decl:exception:%s@%s" % (type(ex).__name__, where(ex)),
+                              "add_c_decl raised %r after\n%s" % (ex, show_history(unit, ops, n + 1)))
+            for it in unit["items"][op[1]:op[2]]:
+                defined.update(cdecl.item_defs(it)[1])
+                pending.update(t for t in cdecl.item_uses(it)[1] if t in all_tags)
+            pending -= defined
+            continue
+        asked_incomplete |= pending
+        if op[0] == "queryptr":
+            tid = (CTypeStruct if op[1] == "struct" else CTypeUnion)(op[2])
+            try:
+                objc = mngr.get_objc(CTypePtr(tid))
+            except Exception as ex:
+                return None, ("history:layout:%s:exception:%s@%s:ptr-to-incomplete" % (mname, type(ex).__name__, where(ex)),
+                              "get_objc raised %r at the end of\n%s" % (ex, show_history(unit, ops, n + 1)))
+            size, align = plan["bases"]["void *"]
+            if not isinstance(objc, O.ObjCPtr) or (objc.size, objc.align) != (size, align):
+                return None, ("history:layout:%s:ptr:ptr-to-incomplete" % mname,
+                              "pointer to the incomplete %s %s: %r at the end of\n%s"
+                              % (op[1], op[2], objc, show_history(unit, ops, n + 1)))
+            continue
+        root = (op[1], op[2])
+        key = "%s %s" % root
+        state = "completed-tag" if by_value_tags(trees[key], set()) & asked_incomplete else "plain"
+        try:
+            objc = root_objc(mngr, root)
+        except Exception as ex:
+            return None, ("history:layout:%s:exception:%s@%s:%s" % (mname, type(ex).__name__, where(ex), state),
+                          "get_objc raised %r at the end of\n%s" % (ex, show_history(unit, ops, n + 1)))
+        r = cmp_layout(trees[key], objc, key)
+        if r:
+            return None, ("history:layout:%s:%s:%s" % (mname, r[0], state),
+                          "%s\nat the end of\n%s" % (r[1], show_history(unit, ops, n + 1)))
+    return mngr, asked_incomplete
+
+
+def incomplete_when_asked(unit, ops):
+    """some query of the history is made while a tag used by the declarations so far is still undefined"""
+    all_tags = set(t for it in unit["items"] for t in cdecl.item_defs(it)[1])
+    pending, defined = set(), set()
+    for op in ops:
+        if op[0] == "add":
+            for it in unit["items"][op[1]:op[2]]:
+                defined.update(cdecl.item_defs(it)[1])
+                pending.update(t for t in cdecl.item_uses(it)[1] if t in all_tags)
+            pending -= defined
+        elif pending:
+            return True
+    return False
 
 
 def root_objc(mngr, root):
@@ -403,30 +510,44 @@ def nested(node, lvl=0):
     return False
 
 
-def judge_unit(unit, plan, mode, paths=None, rnd=None, npaths=0, stats=None, on_access=None):
+def judge_unit(unit, plan, mode, paths=None, rnd=None, npaths=0, stats=None, on_access=None, history=None):
     """-> list of (bucket, detail, extra-case-fields).  paths: explicit access texts [(rootkey, text)] (replay);
-    otherwise npaths random ones per root are drawn from rnd when the layout agrees."""
+    otherwise npaths random ones per root are drawn from rnd when the layout agrees.
+    history None: the whole unit is declared at once, then a manager is made.  Otherwise (ops of cdecl.history_plan)
+    the manager is the one that went through that history; the layout of every root is then asked for as its end."""
     out = []
     text = cdecl.render_unit(unit)
     mname = "packed" if mode == "p" else "notpacked"
-    try:
-        mngr = managers(text)[mode]
-    except Exception as ex:
-        return [("decl:exception:%s@%s" % (type(ex).__name__, where(ex)), "add_c_decl raised %r on\n%s" % (ex, text), {})]
     lay = cdecl.Layout(unit, plan[mode], plan["bases"])
+    pfx, sfx, asked_incomplete = "", "", set()
+    if history is None:
+        try:
+            mngr = manager(text, mode)
+        except Exception as ex:
+            return [("decl:exception:%s@%s" % (type(ex).__name__, where(ex)), "add_c_decl raised %r on\n%s" % (ex, text), {})]
+    else:
+        mngr, r = run_history(unit, plan, mode, history)
+        if mngr is None:
+            if stats is not None:
+                stats["access skipped: layout disagrees"] += 1
+            return [(r[0], r[1], {})]
+        pfx, asked_incomplete = "history:", r
+        text = "at the end of\n%s\n" % show_history(unit, history)
     layout_ok = True
     for root in lay.env.roots:
         key = "%s %s" % root
+        if history is not None:
+            sfx = ":completed-tag" if by_value_tags(lay.trees[key], set()) & asked_incomplete else ":plain"
         try:
             objc = root_objc(mngr, root)
         except Exception as ex:
-            out.append(("layout:%s:exception:%s@%s" % (mname, type(ex).__name__, where(ex)),
-                        "get_objc(%s) raised %r on\n%s" % (key, ex, text), {}))
+            out.append(("%slayout:%s:exception:%s@%s%s" % (pfx, mname, type(ex).__name__, where(ex), sfx),
+                        "get_objc(%s) raised %r %s%s" % (key, ex, "" if history is not None else "on\n", text), {}))
             layout_ok = False
             break
         r = cmp_layout(lay.trees[key], objc, key)
         if r:
-            out.append(("layout:%s:%s" % (mname, r[0]), "%s\n%s" % (r[1], text), {}))
+            out.append(("%slayout:%s:%s%s" % (pfx, mname, r[0], sfx), "%s\n%s" % (r[1], text), {}))
             layout_ok = False
             break
     if not layout_ok:
@@ -481,13 +602,19 @@ def judge_unit(unit, plan, mode, paths=None, rnd=None, npaths=0, stats=None, on_
 class C35(Check):
     pid = "C35"
     rule = ("random units of 1-4 declarations (struct/union/typedef/enum; members of every arithmetic type the x86-64 leaf "
-            "table knows in several spellings, pointers incl. self/earlier tags, pointer to array, function pointers, "
+            "table knows in several spellings, pointers incl. self/earlier tags and tags only defined by a later "
+            "declaration of the unit, pointer to array, function pointers, "
             "arrays with decimal/hex/octal/expression/sizeof dimensions, nested and anonymous aggregates up to depth 3, "
             "typedef'd members), each judged with CTypesManagerNotPacked and CTypesManagerPacked against gcc "
             "(sizeof/_Alignof/offsetof of every node); then random access paths of <=6 steps (->, ., [k], *, final &) "
             "from a pointer to each aggregate root: c_to_expr, expr_simp, expr_to_c, judged by an independent C access "
-            "evaluator over the gcc layout. Non-trivial: a unit with a nested aggregate and padding (distinct by text "
-            "and mode), or an access of >=2 steps (distinct by unit, mode and access).")
+            "evaluator over the gcc layout. Histories: each unit is also fed to one empty CAstTypes + one manager (made "
+            "before any declaration) in consecutive chunks of declarations (random cuts; never between a typedef and a "
+            "use of its name), with layout queries in between (random subset and order of the roots complete so far, "
+            "and of pointers to tags so far only pointed to), each compared with gcc; at the end every root and random "
+            "accesses through that manager are judged as above. Non-trivial: a unit with a nested aggregate and "
+            "padding (distinct by text and mode), an access of >=2 steps (distinct by unit, mode and access), or a "
+            "history of >=2 chunks with a query in between (distinct by unit, mode and history).")
     assumptions = ["gcc on the host implements the x86-64 System V layout; packed = __attribute__((packed)) on every "
                    "struct and union",
                    "bit-fields, flexible/zero-length arrays, empty aggregates, _Bool/__int128/complex, bare `signed`, "
@@ -499,10 +626,18 @@ class C35(Check):
                    "a pointer to struct/union is taken to point to one object: it is only indexed with 0 (ExprToAccessC "
                    "refuses offsets beyond the pointed object by design)",
                    "returned accesses that go through miasm's internal member names (anonymous members, padding), a "
-                   "function designator or a dereferenced void pointer are not judged",
+                   "function designator or a dereferenced or indexed void pointer are not judged",
                    "the native expression of an access through a pointer to array is not compared with C semantics (the "
-                   "tree's own test pins `*p` = @64[p]); its round trip is"]
-    level_text = ("randomized differential testing of both layout managers against the host compiler, and of the "
+                   "tree's own test pins `*p` = @64[p]); its round trip is",
+                   "a manager reads its CAstTypes at every get_objc: declarations may be added to the table after the "
+                   "manager was made and between queries (several add_c_decl on one table: test/expr_type/"
+                   "test_chandler.py; types_mngr.types_ast.ast_parse_declaration alternating with get_objc on a live "
+                   "manager: example/ida/ctype_propagation.py), and the layout of a complete type does not depend on "
+                   "what was declared or asked before; only complete types are asked for by value",
+                   "a typedef name is a type name for add_c_decl only inside the text that declares it (the parser "
+                   "scope is reset per call): a history never separates a typedef from the uses of its name"]
+    level_text = ("randomized differential testing of both layout managers against the host compiler (declared at once, "
+                  "and through histories of declarations interleaved with layout queries on one manager), and of the "
                   "C-access/expression round trip against an independent evaluator of C accesses")
     technique = "property-based differential testing (random declaration generator, gcc layout oracle)"
 
@@ -512,7 +647,10 @@ class C35(Check):
     def run_shard(self, tier, seed, shard, nshards):
         res = ShardResult()
         nbatch = 6 if tier == "thorough" else 1
-        npaths = 6 if tier == "thorough" else 4
+        # accesses per aggregate root: through the manager made after declaring everything / through the manager
+        # that went through the history
+        npaths = 5 if tier == "thorough" else 3
+        hpaths = 1
         scratch = tempfile.mkdtemp(prefix="c35-", dir="/var/tmp")
         try:
             for b in range(nbatch):
@@ -531,6 +669,30 @@ class C35(Check):
                             res.case(nontrivial_key=(utext, mode, key, t) if deep else None)
                         fails = judge_unit(unit, plan, mode, rnd=rnd, npaths=npaths, stats=res.counters,
                                            on_access=on_access)
+                        if not any(f[0].startswith(("decl:", "layout:")) for f in fails):
+                            # same unit through a history on one table + one manager (a layout that already
+                            # disagrees when everything is declared at once is not reported twice)
+                            hist = cdecl.history_plan(unit, random.Random(derive_seed(seed, "history", b, i, mode)))
+                            hfails = judge_unit(unit, plan, mode, rnd=rnd, npaths=hpaths, stats=res.counters,
+                                                on_access=on_access, history=hist)
+                            nadd = sum(1 for op in hist if op[0] == "add")
+                            nq = sum(1 for op in hist if op[0] != "add")
+                            res.case(nontrivial_key=(utext, mode, repr(hist)) if nadd > 1 and nq else None)
+                            res.counters["histories:" + mode] += 1
+                            res.counters["histories: chunks"] += nadd
+                            res.counters["histories: intermediate layout queries"] += \
+                                sum(1 for op in hist if op[0] == "query")
+                            res.counters["histories: intermediate queries of a pointer to an incomplete tag"] += \
+                                sum(1 for op in hist if op[0] == "queryptr")
+                            if nadd > 1 and nq:
+                                res.counters["histories with >=2 chunks and a query in between:" + mode] += 1
+                            if any(op[0] == "queryptr" for op in hist) or incomplete_when_asked(unit, hist):
+                                res.counters["histories where a layout is asked while a pointed-to tag is incomplete:"
+                                             + mode] += 1
+                            for bucket, detail, extra in hfails:
+                                extra = dict(extra)
+                                extra["history"] = hist
+                                fails.append((bucket, detail, extra))
                         trees = plan[mode]
                         nt = any(nested(t) and has_padding(t) for t in trees.values())
                         res.case(nontrivial_key=(cdecl.render_unit(unit), mode) if nt else None,
@@ -553,7 +715,8 @@ class C35(Check):
             plan = cdecl.oracle([case["unit"]], scratch)[0]
         finally:
             shutil.rmtree(scratch, ignore_errors=True)
-        return judge_unit(case["unit"], plan, case["mode"], paths=case.get("paths") or [])
+        return judge_unit(case["unit"], plan, case["mode"], paths=case.get("paths") or [],
+                          history=case.get("history"))
 
     def replay(self, case):
         fails = self._judge_case(case)
@@ -567,7 +730,8 @@ class C35(Check):
         return Failure(b, d, case)
 
     def shrink(self, failure, tier):
-        """greedy: drop top-level items, drop members, flatten member types to int; keep the bucket"""
+        """greedy: drop top-level items, (history cases: drop queries, merge chunks,) drop members, flatten member
+        types to int; keep the bucket"""
         import copy
         budget = [40 if tier == "quick" else 150]
         bucket = failure.bucket
@@ -581,13 +745,16 @@ class C35(Check):
             elif T[0] in ("ptr", "arr"):
                 aggs(T[1], out)
 
-        def candidates(unit):
+        def item_drops(unit):
             items = unit["items"]
             for i in range(len(items) - 1, -1, -1):
                 if len(items) > 1:
                     u = copy.deepcopy(unit)
                     del u["items"][i]
                     yield u
+
+        def member_edits(unit):
+            items = unit["items"]
             n_aggs = []
             for it in items:
                 aggs(it[1] if it[0] == "def" else it[2] if it[0] == "typedef" else ["void"], n_aggs)
@@ -624,13 +791,36 @@ class C35(Check):
                     return Failure(b, d, c)
             return None
 
+        def with_unit(cur, u):
+            c = dict(cur)
+            c["unit"] = u
+            if cur.get("history") is not None:
+                # item indices changed: the canonical history (every cut, every query) of the smaller unit
+                c["history"] = cdecl.history_plan(u)
+            return c
+
+        def case_candidates(cur):
+            hist = cur.get("history")
+            for u in item_drops(cur["unit"]):
+                yield with_unit(cur, u)
+            if hist is not None:
+                # drop one query; merge two neighbouring chunks
+                for k in range(len(hist) - 1, -1, -1):
+                    c = dict(cur)
+                    if hist[k][0] != "add":
+                        c["history"] = hist[:k] + hist[k + 1:]
+                        yield c
+                    elif k + 1 < len(hist) and hist[k + 1][0] == "add":
+                        c["history"] = hist[:k] + [["add", hist[k][1], hist[k + 1][2]]] + hist[k + 2:]
+                        yield c
+            for u in member_edits(cur["unit"]):
+                yield with_unit(cur, u)
+
         progress = True
         while progress and budget[0] > 0:
             progress = False
             cur = best[0].case
-            for u in candidates(cur["unit"]):
-                case = dict(cur)
-                case["unit"] = u
+            for case in case_candidates(cur):
                 r = try_case(case)
                 if r is not None:
                     best[0] = r
